@@ -67,10 +67,21 @@ func NeedSpace(prev, next string) bool {
 	return false
 }
 
+// Pos is the 1-based (line, rune column) of a token in the rendered text.
+type Pos struct{ Line, Col int }
+
 // Render prints the tokens.
 func Render(toks []gen.Tok, p Plan) string {
+	s, _ := RenderPos(toks, p)
+	return s
+}
+
+// RenderPos prints the tokens and reports where each one starts.
+func RenderPos(toks []gen.Tok, p Plan) (string, []Pos) {
 	r := rand.New(rand.NewSource(p.Seed))
-	var sb strings.Builder
+	var sb posBuilder
+	sb.line, sb.col = 1, 1
+	pos := make([]Pos, 0, len(toks))
 	prev := ""
 	afterLineComment := false
 	for i := 0; i <= len(toks); i++ {
@@ -135,10 +146,31 @@ func Render(toks []gen.Tok, p Plan) string {
 			sb.WriteString(tail)
 		}
 		afterLineComment = false
+		if i < len(toks) {
+			pos = append(pos, Pos{sb.line, sb.col})
+		}
 		sb.WriteString(next)
 		prev = next
 	}
-	return sb.String()
+	return sb.String(), pos
+}
+
+// posBuilder is a strings.Builder that tracks the (line, rune column) of the write position.
+type posBuilder struct {
+	strings.Builder
+	line, col int
+}
+
+func (b *posBuilder) WriteString(s string) (int, error) {
+	for _, r := range s {
+		if r == '\n' {
+			b.line++
+			b.col = 1
+		} else {
+			b.col++
+		}
+	}
+	return b.Builder.WriteString(s)
 }
 
 // Canonical renders with single spaces and a newline after each statement.
